@@ -87,3 +87,133 @@ def build(gdim=2):
     add("f/g + f**2", um.m_sum(um.m_division(f, g), um.m_power(f, um.m_scalar(2))))
     terms = dict(f=f, g=g, u=u, v=v, w=w, A=A, B=B, C=C, i=i, j=j, k=k, l=l)
     return terms, E
+
+
+# ----------------------------------------------------------------------------------------------
+# Compositional generator: tensor-valued bases x wrapper chains x closers.
+#
+# The hand-written family above samples shapes known to be delicate; the generator enumerates *all*
+# compositions of a small grammar up to a depth bound, so that a rewrite which is only wrong when a
+# particular construct sits below another particular construct (a tensor-valued sum below a variable,
+# a component tensor inside a conditional branch indexed by a free index, ...) is reached without
+# anybody having to think of that combination.
+
+
+def _tensor_bases(t):
+    """(description, tensor-valued structured expression) - shapes (2,), (3,), (2,3), (3,2)"""
+    u, v, w, A, B, C, f, g = (t[k] for k in "u v w A B C f g".split())
+    i, j = new_index(), new_index()
+    out = [("u", u), ("B", B)]
+    # tensor-valued IndexSum  sum_i u[i]*B[i,:]   (IndexSum over a ComponentTensor summand)
+    row = um.m_component_tensor(um.m_product(idx(u, i), idx(B, i, j)), MI((j,)))
+    out.append(("sum_i as_tensor(u[i]*B[i,j],(j,))", um.m_index_sum(row, MI((i,)))))
+    i2, j2 = new_index(), new_index()
+    # ComponentTensor of a contraction  as_tensor(B[i,j]*w[j], (i,))
+    out.append(("as_tensor(B[i,j]*w[j],(i,))", um.m_component_tensor(mult(idx(B, i2, j2), idx(w, j2)), MI((i2,)))))
+    i3, j3 = new_index(), new_index()
+    out.append(("as_tensor(C[i,j],(j,i))", um.m_component_tensor(idx(C, i3, j3), MI((j3, i3)))))
+    out.append(("as_vector([f*g, u[1]])", um.m_list_tensor(mult(f, g), idx(u, 1))))
+    out.append(("u + v", um.m_sum(u, v)))
+    return out
+
+
+def _wrappers(t):
+    """(description, function tensor -> tensor of the same or a larger shape)"""
+    f, g = t["f"], t["g"]
+    c = um.m_rel("<")(f, g)
+
+    def w_variable(X):
+        return node(X, "Variable", (X, Obj("label", ufl_class="Label", ufl_operands=(), _ufl_is_terminal_=True)))
+
+    def w_cond(X):
+        other = um.m_component_tensor(*_full_index(X, scale=g)) if X.shape else mult(X, g)
+        return um.m_conditional(c, X, other)
+
+    def w_cond_else(X):
+        other = um.m_component_tensor(*_full_index(X, scale=f)) if X.shape else mult(X, f)
+        return um.m_conditional(c, other, X)
+
+    def w_list(X):
+        second = um.m_component_tensor(*_full_index(X, scale=f))
+        return um.m_list_tensor(X, second)
+
+    def w_sum(X):
+        return um.m_sum(X, um.m_component_tensor(*_full_index(X, scale=g)))
+
+    def w_restrict(X):
+        r = um.m_restricted("+")(X)
+        return r
+
+    def w_ct(X):
+        # as_tensor(X[ii], ii): an identity re-wrapping with fresh indices
+        return um.m_component_tensor(*_full_index(X))
+
+    return [("variable", w_variable), ("cond-then", w_cond), ("cond-else", w_cond_else), ("list-row", w_list), ("sum", w_sum), ("as_tensor-rewrap", w_ct)]
+
+
+def _full_index(X, scale=None):
+    ii = tuple(new_index() for _ in X.shape)
+    e = idx(X, *ii)
+    if scale is not None:
+        e = um.m_product(scale, e)
+    return e, MI(ii)
+
+
+def _closers(t):
+    """(description, function tensor -> closed scalar)"""
+    u, v, w, A, B, C = (t[k] for k in "u v w A B C".split())
+
+    def partner(shape):
+        return {(2,): v, (3,): w, (2, 3): B, (3, 2): C, (2, 2): A, (2, 2, 3): None, (2, 3, 2): None}.get(tuple(shape))
+
+    def fixed2(X):
+        # X[0..]*X[1..]: two different fixed components of one shared node
+        a = idx(X, *([0] * len(X.shape)))
+        b = idx(X, *([1] * len(X.shape)))
+        return mult(a, b)
+
+    def free_contract(X):
+        p = partner(X.shape)
+        ii = tuple(new_index() for _ in X.shape)
+        if p is None:
+            return mult(idx(X, *ii), idx(X, *ii))
+        return mult(idx(X, *ii), idx(p, *ii))
+
+    def self_contract(X):
+        ii = tuple(new_index() for _ in X.shape)
+        return mult(idx(X, *ii), idx(X, *ii))
+
+    def mixed(X):
+        # first axis fixed, the others free:  X[1, j..] * P[0, j..]
+        ii = tuple(new_index() for _ in X.shape[1:])
+        p = partner(X.shape)
+        if p is None:
+            p = X
+        return mult(idx(X, 1, *ii), idx(p, 0, *ii))
+
+    return [("X[0]*X[1]", fixed2), ("X[i]*P[i]", free_contract), ("X[i]*X[i]", self_contract), ("X[1,j]*P[0,j]", mixed)]
+
+
+def generate(depth=1, terms=None):
+    """All compositions closer(wrapper_n(...wrapper_1(base))) with n <= depth.
+    Returns (terms, list of (description, closed scalar expression))."""
+    import itertools
+
+    if terms is None:
+        terms, _ = build()
+    out = []
+    wr = _wrappers(terms)
+    for n in range(depth + 1):
+        for chain in itertools.product(wr, repeat=n):
+            for bd, base in _tensor_bases(terms):
+                X = base
+                d = bd
+                try:
+                    for wd, wf in chain:
+                        X = wf(X)
+                        d = f"{wd}({d})"
+                    for cd, cf in _closers(terms):
+                        out.append((f"{cd} with X = {d}", cf(X)))
+                except um.LiftRaise:
+                    continue
+    return terms, out
